@@ -356,7 +356,7 @@ func (fg *FG) dynCall(st *State, cc *ssa.CallCommon, in ssa.Instruction, f Val) 
 		if c == nil {
 			fg.fail("functype %s refers to unknown contract %s", name, mode)
 		}
-		return fg.applyContract(st, c, nil, sig, args, in, nil)
+		return fg.applyContract(st, c, nil, sig, args, in, map[string]Val{"self": f})
 	}
 	fg.fail("call through function value %q without a functype declaration", name)
 	return nil
@@ -514,6 +514,17 @@ func (fg *FG) specLoc(x *SExpr, env *Env) *Loc {
 	case SSel:
 		a := env.tr(x.A)
 		if a.Ty == nil {
+			if a.Sort == "Int" {
+				if ty, ok := fg.g.ct.GhostFields["any."+x.Name]; ok {
+					t, srt := env.resolveType(ty)
+					if t != nil {
+						srt = fg.sorts.sortOf(t)
+					}
+					fam := "G_any_" + sanitize(x.Name)
+					fg.heapSort[fam] = "(Array Int " + srt + ")"
+					return &Loc{Kind: LGhost, Heap: fam, Ref: a.T, Ty: t, GSort: srt}
+				}
+			}
 			fg.fail("modifies: selection on spec sort")
 		}
 		if gf, ok := fg.ghostField(a.Ty, x.Name); ok {
